@@ -647,6 +647,12 @@ class ImplRun:
                 key = "lattice:%s" % name
                 what = "after %s: %s do not refer to their structure's lattice" % (name, where)
             self.fail(key, what)
+        if k == "setlat" and out == "ok":
+            # whatever the atoms referred to before (a foreign lattice taken over through a shared selection included),
+            # assigning a lattice - the one the structure already has included - re-links every atom of that structure
+            stale = [a.payload for h, s in live if h == op[1] for a in list.__iter__(s) if a.lattice is not s.lattice]
+            if stale:
+                self.fail("setlat-relinks:%s" % name, "after the lattice assignment to structure %s its atoms with payloads %s do not refer to its lattice" % (op[1], stale[:6]))
         if out.startswith("atom:") and k in ("get",) and out.endswith(":0") and not pre["bad"]:
             self.fail("lattice:%s" % name, "returned atom does not refer to the structure's lattice")
         if not out.startswith(("stru:", "ok", "atom:")):
@@ -966,7 +972,7 @@ class Gen:
         if k == "setlat":
             if self.rng.random() < 0.6:
                 return ("setlat", h, ("new",))
-            return ("setlat", h, ("of", self.pick_h(lens)))
+            return ("setlat", h, ("of", h if self.rng.random() < 0.3 else self.pick_h(lens)))
         if k == "pop":
             return ("pop", h, None if self.rng.random() < 0.4 else self.int_index(n))
         if k == "remove":
@@ -1079,6 +1085,11 @@ def corpus():
                ("ctor", ("S", 9), ("new",), 0), ("ctor", ("S", 0), ("of", 9), 0), ("ctor", ("L", [("M", 0, 7)]), None, 0)],
         two + [("ctor", ("T", 1), ("new",), 0)],
         two + [("ctor", ("GS", 0), None, 1), ("ctor", ("S", 0), ("new",), 0), ("setlat", 3, ("new",)), ("imul", 3, 2)],
+        # a structure is assigned the lattice it already has after its atoms were re-linked through a shared selection /
+        # a non-copying insertion elsewhere: the assignment must re-link them
+        base + [("get", 0, ("s", (1, None, None))), ("setlat", 1, ("new",)), ("setlat", 0, ("of", 0)), ("setlat", 1, ("of", 1))],
+        two + [("append", 0, ("M", 1, 0), "n"), ("setlat", 1, ("of", 1)), ("setlat", 0, ("of", 0)), ("setlat", 0, ("of", 1))],
+        two + [("extend", 1, ("T", 0), "d"), ("setlat", 0, ("of", 0)), ("get", 0, ("a", [0, 2])), ("setlat", 2, ("new",)), ("setlat", 0, ("of", 0))],
         # lattice sharing between structures
         two + [("setlat", 1, ("of", 0)), ("append", 1, ("M", 0, 0), "n"), ("copy", 0, 2), ("copy", 1, 3), ("setlat", 0, ("new",))],
     ]
